@@ -593,11 +593,38 @@ func scLeaseIsolation(r *rng) *cluster {
 	t0 := time.Now()
 	c.partition(side, other)
 	lease := o.lease
+	// in half of the runs clients keep calling the isolated leader, much more often than the lease
+	// lasts: the lease check must not be starved by a busy leader loop
+	busy := r.chance(1, 2)
+	stopLoad := make(chan struct{})
+	loadDone := make(chan struct{})
+	go func() {
+		defer close(loadDone)
+		pay := uint64(5200)
+		for k := 0; busy; k++ {
+			select {
+			case <-stopLoad:
+				return
+			case <-time.After(lease / 25):
+			}
+			switch k % 3 {
+			case 0:
+				pay++
+				c.call(l.id, "apply", pay, 0)
+			case 1:
+				l.r.VerifyLeader()
+			default:
+				l.r.GetConfiguration()
+			}
+		}
+	}()
 	stepped := waitFor(2*lease+400*time.Millisecond, func() bool { return l.r.State() != raft.Leader })
+	close(stopLoad)
+	<-loadDone
 	d := time.Since(t0)
 	c.h.add(hev{kind: "note", node: l.id, s: "stepdown-delay-us", a: uint64(d.Microseconds())})
 	if !stepped {
-		noteFinding(c, "C13", "isolated-leader-did-not-step-down", "leader %d kept leadership %v after losing its voter majority (lease %v, %d non-voters on its side)", l.id, d, lease, len(side)-1)
+		noteFinding(c, "C13", "isolated-leader-did-not-step-down", "leader %d kept leadership %v after losing its voter majority (lease %v, %d non-voters on its side, client load %v)", l.id, d, lease, len(side)-1, busy)
 	} else if d > 2*lease+150*time.Millisecond {
 		noteFinding(c, "C13", "isolated-leader-stepped-down-late", "leader %d stepped down after %v (lease %v)", l.id, d, lease)
 	}
